@@ -138,9 +138,9 @@ def e2_subset(maxlen):
 # ------------------------------------------------------------- histories -----
 SPEC = [
     {'task': 'ta', 'name': 'a', 'kind': 'task', 'svs': {'s': ['v', 'v2']}, 'refs': []},
-    {'task': 'ta', 'name': 'a2', 'kind': 'task', 'svs': {'s': ['v'], 's2': ['v']}, 'refs': []},
-    {'task': 'ta2', 'name': 'a', 'kind': 'task', 'svs': {'s': ['v']}, 'refs': []},
-]
+    {'task': 'ta', 'name': 'a2', 'kind': 'task', 'svs': {'s': ['v'], 's2': ['v']}, 'refs': [], 'ver': (2, 1, 0), 'svver': {'s': (2, 2, 0)}},
+    {'task': 'ta2', 'name': 'a', 'kind': 'task', 'svs': {'s': ['v']}, 'refs': [], 'ver': (3, 1, 0)},
+] + [{'task': 'tz', 'name': f'f{i}', 'kind': 'task', 'svs': {'s': ['v']}, 'refs': []} for i in range(9)]
 ALGS = [('ta', 'a'), ('ta', 'a2'), ('ta2', 'a')]
 SLOTS = [('T1', 1), ('T1', 3), ('T1', 10), ('T12', 2)]
 _S = {}
@@ -225,13 +225,29 @@ def events():
     return ev
 
 
-def hist_body(k, sel):
+def warm(ae):
+    """a catalogue as after some life: every name registered (through the real
+    shelve.update), in an order that gives the addressed names ids that are decimal
+    prefixes of other ids (algorithm/state/value ids 1 vs 10, 11, ...)"""
+    order = [('tz', 'f0'), ('ta', 'a')] + [('tz', f'f{i}') for i in range(1, 9)] + [('ta', 'a2'), ('ta2', 'a')]
+    for task, name in order:
+        bot = ae.fs[task].task(task, 0, 1, 'T1')
+        alg = [x for x in bot.routines() if x.name() == name][0]
+        for sv in alg.state_vectors():
+            for vn, v in sv.items():
+                shelve_db.update(bot, alg, sv, vn, v)
+
+
+def hist_body(k, sel, warm_start=False):
     with rt.island():
         ae, w = setup()
         fresh_db(w)
         ae.ver.clear()
         ae.ver.update(_S['ver0'])
         ev = events()
+        if warm_start:
+            warm(ae)
+            rt.note('WARM catalogue (12 algorithms registered)')
     for step in range(k):
         i = None
         for j in range(len(ev)):
@@ -320,7 +336,7 @@ INFO = {
     'functions': ['db.shelve.util.construct', 'dissect', 'subset', 'append', 'indexed', 'prime_keys', 'db.shelve.state.DBI.open/close', 'db.shelve.add/next/remove/reset/trace/targets',
                   'db.shelve.model.Interface._update'],
     'bounds': {
-        'quick': 'names: all strings of <=3 characters (round trip, CrossHair); selection lemma (AST->SMT): all pairs of names of 1..6 characters, parents from {0,1,3,10,11}, versions none/1.1.0/1.10.2; histories of <=3 operations from 21 kinds',
+        'quick': 'histories start from an empty catalogue and from a warm one (12 algorithms registered, so that catalogue ids 1 and 10.. coexist); names: all strings of <=3 characters (round trip, CrossHair); selection lemma (AST->SMT): all pairs of names of 1..6 characters, parents from {0,1,3,10,11}, versions none/1.1.0/1.10.2; histories of <=3 operations from 21 kinds',
         'thorough': 'round trip: names <=4 characters; selection lemma: names of 1..12 characters; histories of <=4 operations',
     },
     'assumptions': ['names contain none of the reserved separator characters ":" and "_" (compliance rules forbid "." only; the separators are DAWGIE-internal)',
@@ -349,6 +365,10 @@ def obligations(tier):
             for second in range(n):
                 out.append(ob.make(f'hist-k{k}-{first}.{second}', 'hist', 'vp.harness.c08:hist_body', ', '.join(f'{v}: int' for v in free), [' and '.join(f'0 <= {v} < {n}' for v in free)],
                                    f"{{'k': {k}, 'sel': [{first}, {second}, {', '.join(free)}]}}", timeout=3000))
+    for first in range(12):
+        fr = [f'e{i}' for i in range(1, k)]
+        out.append(ob.make(f'warm-k{k}-{first}', 'hist', 'vp.harness.c08:hist_body', ', '.join(f'{v}: int' for v in fr), [' and '.join(f'0 <= {v} < {n}' for v in fr)],
+                           f"{{'k': {k}, 'sel': [{first}, {', '.join(fr)}], 'warm_start': True}}", timeout=900 if tier == 'quick' else 3000))
     allv = [f'e{i}' for i in range(k)]
     out.append(ob.make('hist', 'hist', 'vp.harness.c08:hist_body', ', '.join(f'{v}: int' for v in allv), [' and '.join(f'0 <= {v} < {n}' for v in allv)],
                        f"{{'k': {k}, 'sel': [{', '.join(allv)}]}}", timeout=300, twin=True))
